@@ -170,6 +170,7 @@ def read_body(case, ctx, tmp):
                 classes.append(('read', vk, m.ndim, tuple(ikinds), spell, tol is not None))
                 # position mode
                 pidx = tuple(rng.choice([rng.randrange(ax.size), -1, slice(None), slice(0, ax.size, 2), slice(1, None), sorted(rng.sample(range(ax.size), rng.randint(1, ax.size))),
+                                         slice(None, None, -1), slice(None, None, -2), slice(ax.size - 1, 0, -2), slice(None, 0, -3), slice(-1, None, -2),      # strides running backwards
                                          np.array([rng.random() < 0.5 for _ in range(ax.size)], dtype=bool)]) for ax in m.axes)
                 psingle = pidx[0] if len(pidx) == 1 else pidx
                 pspell = rng.choice(['ix', 'iloc', 'isel', 'read-pos', 'read_nc-pos', 'read_nc-pos-tuple'])
@@ -270,7 +271,13 @@ def write_body(case, ctx, tmp):
             else:
                 rhs = (np.arange(int(np.prod(shape)), dtype=float).reshape(shape) + base)
                 if form == 'dimarray' and common.is_da(sel):
-                    rhs = da.DimArray(rhs, axes=[ax.copy() for ax in sel.axes])
+                    if len(shape) >= 2 and len(set(shape)) == 1 and rng.random() < 0.5:
+                        # a DimArray whose dimensions are listed in another order (equal sizes): assignment goes by position,
+                        # on disk as in memory
+                        rhs = da.DimArray(rhs, axes=[ax.copy() for ax in list(sel.axes)[::-1]])
+                        ctx.outcomes['ondisk-writes-transposed-dimarray'] += 1
+                    else:
+                        rhs = da.DimArray(rhs, axes=[ax.copy() for ax in sel.axes])
             if m.values.dtype.kind == 'f' and rng.random() < 0.25:
                 # integers beyond 2**31 assigned to a float variable (exact in float64, not representable in int32)
                 big = 3000000000
